@@ -132,7 +132,8 @@ def run(ctx):
 
     # ---------------------------------------------------------------- K2
     c02.wrappers(ctx, m)
-    c02.side_queries(ctx, m)   # best price / best id read the FIRST entry of the priority map
+    c02.lockstep(ctx, m)       # the priority map is keyed (key.1, key.2) -> id; queries read its FIRST entry
+    c02.writeback(ctx, m)      # the working copy of the order is stored back on every modifying path
 
     # ---------------------------------------------------------------- K4 matching loops
     matchers = m.matchers()
